@@ -68,6 +68,7 @@ CONTROLS = {
     "C03": ["score_adjusted_in_push", "query_swaps_table"],
     "C04": ["hash_written_in_update_phase"],
     "C06": ["interior_nodes_unchecked_for_speed"],
+    "C09": ["late_move_pruning", "history_pruning"],
     "C13": ["revert_fix_time_arithmetic"],
     "C14": ["join_under_lock_in_ucinewgame", "isready_takes_lock"],
     "C15": ["new_unchecked_access_in_eval"],
